@@ -14,6 +14,9 @@ pub enum Palette {
     Boundary,
     /// arbitrary 64-bit values (distinct with overwhelming probability), some boundary, some small
     Wide,
+    /// 100..=105: small enough for masked loop bounds, yet apart from the small values
+    /// variables usually hold
+    Hundred,
 }
 
 pub const BOUNDARY: [i64; 24] = [
@@ -104,6 +107,7 @@ impl DriverSpec {
         OutVal::Val(match self.palette {
             Palette::Small => (r % 6) as i64,
             Palette::Bit => (r & 1) as i64,
+            Palette::Hundred => 100 + (r % 6) as i64,
             Palette::Boundary => {
                 if r % 3 == 0 {
                     ((r >> 8) % 6) as i64
